@@ -758,3 +758,88 @@ def r9(fx):
     for o in p12.r4(fx):
         if o.key.startswith('make_code maps'):
             yield o
+
+
+def assembled_symbols(fx):
+    """From the final message to the symbol, end to end: `_encode` is interpreted with the repository's own matrix stages
+    (matrix construction, function patterns, codeword placement, masking, format / version information) on a final message
+    of known bits.  With mask k requested the result must be, cell by cell, the ISO symbol: function patterns, bit i of the
+    message XOR pattern k of the symbol's kind at the i-th cell of the placement order, the format word of (level, k), the
+    version word.  Without a requested mask the result must be the symbol that requesting the chosen number yields."""
+    from .models import trace_encode
+    fn = fx.fn('encoder', '_encode')
+    lv, mv = levels(fx), micro_versions(fx)
+    stages = ('make_matrix', 'add_finder_patterns', 'add_alignment_patterns', 'add_codewords', 'find_and_apply_best_mask', 'add_format_info', 'add_version_info')
+
+    def expected(v, level, k, bits):
+        n = iso.size_of(v)
+        lay = iso.layout(v)
+        if v >= 1:
+            word = iso.format_word((iso.LEVEL_INDICATOR[level] << 3) | k)
+            pred = iso.MASKS[k]
+        else:
+            word = iso.format_word_micro((iso.MICRO_SYMBOL_NUMBER[(v, level)] << 2) | k)
+            pred = iso.MASKS[iso.MICRO_MASKS[k]]
+        vword = iso.golay18_6(v) if v >= 7 else 0
+        m = [[None] * n for _ in range(n)]
+        for (r, c), (kind, val) in lay.items():
+            if kind == 'format':
+                m[r][c] = (word >> val[2]) & 1
+            elif kind == 'version':
+                m[r][c] = (vword >> val[2]) & 1
+            else:
+                m[r][c] = val or 0
+        for i, (r, c) in enumerate(iso.placement(v)):
+            m[r][c] = (bits[i] if i < len(bits) else 0) ^ (1 if pred(r, c) else 0)
+        return m
+
+    def run(v, level, k, bits):
+        rv = mv[v] if v < 1 else v
+        rec, res, info = trace_encode(fx, rv, level, level, mask_in=k, real=stages, boost_error=False,
+                                      extra={'make_final_message': lambda *a, **kw_: list(bits)})
+        if not (isinstance(res, tuple) and len(res) == 6 and res[0] == 'CODE'):
+            raise Unknown('_encode does not return Code(matrix, version, error, mask, segments)')
+        return [list(row) for row in res[1]], res[4]
+    for v, level in ((-3, None), (-2, 'L'), (-1, 'M'), (0, 'Q'), (1, 'M'), (2, 'H'), (7, 'L')):
+        n = iso.size_of(v)
+        nbits = len(iso.placement(v))
+        bits = [((i * i * 7 + i * 3 + 1) % 11) % 2 for i in range(nbits)]
+        for k in range(8 if v >= 1 else 4):
+            if v == 7 and k not in (0, 5):
+                continue
+            try:
+                got, mask_out = run(v, level, k, bits)
+                want = expected(v, level, k, bits)
+                why = ''
+                if mask_out != k:
+                    why = f'Code.mask = {mask_out}'
+                elif len(got) != n or any(len(r_) != n for r_ in got):
+                    why = f'matrix {len(got)} rows'
+                else:
+                    diff = [(r, c) for r in range(n) for c in range(n) if got[r][c] != want[r][c]]
+                    if diff:
+                        r, c = diff[0]
+                        kind = iso.layout(v).get((r, c), ('data',))[0]
+                        why = f'{len(diff)} cell(s) differ, first ({r}, {c}) [{kind}]: {got[r][c]} instead of {want[r][c]}'
+            except PyRaise as ex:
+                why = f'raises {ex.name}'
+            yield ob(f'symbol assembled from a known final message: version {v if v >= 1 else "M" + str(v + 4)}-{level}, mask {k} requested', not why, fn,
+                     got=why or 'the ISO symbol', want='function patterns, message bits XOR pattern of the symbol kind in placement order, format / version words')
+    # the automatic choice, requested explicitly, gives the same symbol
+    for v, level in ((-2, 'L'), (0, 'M'), (1, 'L')):
+        nbits = len(iso.placement(v))
+        bits = [((i * i * 5 + i + 2) % 13) % 2 for i in range(nbits)]
+        try:
+            auto, k_auto = run(v, level, None, bits)
+            again, k_again = run(v, level, k_auto, bits) if isinstance(k_auto, int) else (None, None)
+            why = '' if auto == again and k_auto == k_again else f'automatic choice {k_auto}; requesting it gives mask {k_again} and ' + \
+                (f'{sum(1 for a_, b_ in zip(sum(auto, []), sum(again, [])) if a_ != b_)} different cells' if again else 'no symbol')
+        except PyRaise as ex:
+            why = f'raises {ex.name}'
+        yield ob(f'version {v if v >= 1 else "M" + str(v + 4)}-{level}: requesting the automatically chosen mask reproduces the symbol', not why, fn,
+                 got=why or 'identical', want='identical')
+
+
+@rule('C06', 'R10', 35, 'from the final message to the symbol, end to end (repository matrix stages interpreted on known bits): requested mask = pattern of the symbol kind, announced in the format information; the automatic choice requested explicitly reproduces the symbol')
+def r10(fx):
+    yield from assembled_symbols(fx)
